@@ -21,7 +21,7 @@ Why(e) ==
      (IF ~e.unsafe /\ InProject(e) /\ e.executed THEN {"ProjectCodeExecuted"} ELSE {})
   \cup (IF e.bystanders > 0 THEN {"BystanderFileExecuted"} ELSE {})
   \cup (IF ~e.hostsame THEN {"HostStateChanged"} ELSE {})
-  \cup (IF e.projmods > 0 THEN {"ProjectModuleInHostSysModules"} ELSE {})
+  \cup (IF ~e.unsafe /\ e.projmods > 0 THEN {"ProjectModuleInHostSysModules"} ELSE {})
   \cup (IF e.execprojpath THEN {"ImportWithProjectOnPath"} ELSE {})
 Soft == {}
 
